@@ -154,9 +154,17 @@ type vpC06Var struct {
 	ints        int
 }
 
-type vpC06W struct{ b []byte }
+type vpC06W struct {
+	b        []byte
+	overflow bool // some value did not fit its 16-bit field: the bytes describe another value
+}
 
-func (w *vpC06W) u16(v int)     { w.b = binary.BigEndian.AppendUint16(w.b, uint16(v)) }
+func (w *vpC06W) u16(v int) {
+	if v < 0 || v > 0xffff {
+		w.overflow = true
+	}
+	w.b = binary.BigEndian.AppendUint16(w.b, uint16(v))
+}
 func (w *vpC06W) u32(v int)     { w.b = binary.BigEndian.AppendUint32(w.b, uint32(v)) }
 func (w *vpC06W) u64(v uint64)  { w.b = binary.BigEndian.AppendUint64(w.b, v) }
 func (w *vpC06W) raw(p []byte)  { w.b = append(w.b, p...) }
@@ -314,6 +322,30 @@ func vpC06RefEncode(tx *SignedTransaction, v *vpC06Var) []byte {
 		w.raw(v.Trailing)
 	}
 	return w.b
+}
+
+// vpC06RefEncodeFits is vpC06RefEncode for values that may lie outside the wire
+// format: ok is false when some count, length or index does not fit its field.
+func vpC06RefEncodeFits(tx *SignedTransaction) (b []byte, ok bool) {
+	w := &vpC06W{}
+	for _, in := range tx.Inputs {
+		if in.Index > 0xffff {
+			return nil, false
+		}
+	}
+	var v *vpC06Var
+	if a := tx.AggregatedSignature; a != nil {
+		for i := 1; i < len(a.Signers); i++ {
+			if a.Signers[i] <= a.Signers[i-1] {
+				// only the sparse list can carry an unsorted or repeated signer
+				// list; a bit mask of it would describe the sorted set instead
+				v = &vpC06Var{MaskForm: 1}
+			}
+		}
+	}
+	vpC06RefPayload(w, &tx.Transaction, v)
+	vpC06RefAuth(w, tx, v)
+	return w.b, !w.overflow
 }
 
 func vpC06RefPayloadBytes(tx *Transaction) []byte {
